@@ -4,12 +4,16 @@ use crate::core::rng::Rng;
 pub const NAME_POOL: &[&str] = &[
     "A", "a", "B", "A-B", "Package", "Source", "X-Foo", "Depends", "b", "Version", "C", "Description", "a_b", "Z9", "X!y", "1st", "foo.bar",
     "Vcs-Git", "Files", "Name+x",
+    // ASCII magic numbers of other file formats are field names like any other
+    "BZh", "PK", "MZ", "GIF89a", "ustar", "7z",
 ];
 
 pub const NON_ASCII: &[&str] = &["é", "ĳ", "ß", "→", "€", "日", "本", "😀", "𝔘", "\u{a0}", "\u{2028}", "ü", "Ж", "\u{feff}", "\u{200b}", "\u{3000}", "\u{212a}", "\u{130}", "\u{1e9e}",
     // code points whose low byte is an ASCII byte the lexer cares about (LF, CR, tab, space, ':', '#', '-'): a
     // truncating cast to u8 turns them into that byte
-    "\u{10a}", "\u{10d}", "\u{109}", "\u{120}", "\u{13a}", "\u{123}", "\u{12d}", "\u{a0a}", "\u{2020}", "\u{203a}"];
+    "\u{10a}", "\u{10d}", "\u{109}", "\u{120}", "\u{13a}", "\u{123}", "\u{12d}", "\u{a0a}", "\u{2020}", "\u{203a}",
+    // the replacement character is ordinary text
+    "\u{fffd}"];
 const CONTROL: &[&str] = &["\u{0}", "\u{1}", "\u{7f}", "\u{b}", "\u{c}", "\u{1b}", "\u{85}"];
 
 #[derive(Clone, Debug)]
@@ -178,6 +182,10 @@ fn field(rng: &mut Rng, f: &DocFlags, used: &mut Vec<String>) -> String {
     let v = value(rng, f.non_ascii, f.multiline);
     let mut out = String::new();
     out.push_str(&n);
+    // blanks between the name and the colon are accepted by the reader
+    if rng.chance(1, 30) {
+        out.push_str(rng.s(&[" ", "\t", "  "]));
+    }
     out.push(':');
     for (i, line) in v.split('\n').enumerate() {
         if i == 0 {
@@ -378,9 +386,14 @@ fn biased_pos(rng: &mut Rng, s: &str) -> usize {
 
 /// Apply one storage/transport fault that keeps the text valid UTF-8. Returns the fault kind.
 pub fn text_fault(rng: &mut Rng, s: &mut String) -> &'static str {
-    let kind = rng.below(15);
+    let kind = rng.below(16);
     let lines: Vec<String> = s.split_inclusive('\n').map(|l| l.to_string()).collect();
     match kind {
+        15 => {
+            // blanks in front of everything (offsets computed on a trimmed copy do not fit the original)
+            s.insert_str(0, rng.s(&[" ", "\t", "  ", " \u{a0}"]));
+            "leading_blank"
+        }
         14 if lines.len() > 2 => {
             // a run of lines delivered in reverse order (an END marker before its BEGIN, a continuation before its field)
             let n = 2 + rng.below(5.min(lines.len() - 1));
